@@ -6,6 +6,7 @@ require (
 	github.com/anishathalye/porcupine v1.3.0
 	github.com/els0r/goProbe/v4 v4.0.0
 	github.com/els0r/telemetry/logging v0.0.0-20260406010724-0c813ed6284d
+	github.com/fako1024/gotools/concurrency v0.0.0-20260108133916-d42cb4e89f05
 	github.com/fako1024/gotools/link v0.0.0-20260511092824-089d64760c34
 	github.com/fako1024/slimcap v1.0.12
 )
@@ -17,7 +18,6 @@ require (
 	github.com/danielgtaylor/huma/v2 v2.37.3 // indirect
 	github.com/els0r/telemetry/tracing v0.0.0-20260406010724-0c813ed6284d // indirect
 	github.com/fako1024/gotools/bitpack v0.0.0-20260108133916-d42cb4e89f05 // indirect
-	github.com/fako1024/gotools/concurrency v0.0.0-20260108133916-d42cb4e89f05 // indirect
 	github.com/gabriel-vasile/mimetype v1.4.13 // indirect
 	github.com/gin-contrib/pprof v1.5.4 // indirect
 	github.com/gin-contrib/sse v1.1.1 // indirect
@@ -31,6 +31,7 @@ require (
 	github.com/google/uuid v1.6.0 // indirect
 	github.com/grpc-ecosystem/grpc-gateway/v2 v2.29.0 // indirect
 	github.com/json-iterator/go v1.1.12 // indirect
+	github.com/klauspost/compress v1.18.6 // indirect
 	github.com/klauspost/cpuid/v2 v2.3.0 // indirect
 	github.com/leodido/go-urn v1.4.0 // indirect
 	github.com/mattn/go-isatty v0.0.22 // indirect
@@ -38,6 +39,7 @@ require (
 	github.com/modern-go/reflect2 v1.0.2 // indirect
 	github.com/munnerz/goautoneg v0.0.0-20191010083416-a7dc8b61c822 // indirect
 	github.com/pelletier/go-toml/v2 v2.3.1 // indirect
+	github.com/pierrec/lz4/v4 v4.1.26 // indirect
 	github.com/prometheus/client_golang v1.23.2 // indirect
 	github.com/prometheus/client_model v0.6.2 // indirect
 	github.com/prometheus/common v0.67.5 // indirect
